@@ -30,6 +30,7 @@ type c10Scn struct {
 	Sent   []string `json:"sent"`
 	Seg    string   `json:"seg,omitempty"`
 	Fault  string   `json:"fault,omitempty"` // C11: "werr-on-cred": the write that carries the first secret fails
+	Idx    *int     `json:"idx,omitempty"`   // replay: the position the scenario had in its run (spellings and seeds derive from it)
 	idx    int
 }
 
@@ -85,7 +86,8 @@ func c10Run(s *c10Scn, segName string, logEnc *json.Encoder, logMu *sync.Mutex) 
 				st.Text = "Warning: Permanently added 'r1' (ED25519) to the list of known hosts.\r\n"
 			}
 		case "askuser":
-			st.Text = []string{"Username: ", "login: ", "r1 login: "}[(s.idx+k)%3]
+			// the last spelling: the device prints a notice behind the question on the same line (seen on IOS with Kerberos configured)
+			st.Text = []string{"Username: ", "login: ", "r1 login: ", "Username: Kerberos: No default realm defined for Kerberos!\r\n"}[(s.idx+k)%4]
 		case "askpass":
 			st.Text = []string{"Password: ", "password:", "adm1n@r1's password: "}[(s.idx+k)%3]
 			if s.Style == "telnet" {
@@ -107,6 +109,15 @@ func c10Run(s *c10Scn, segName string, logEnc *json.Encoder, logMu *sync.Mutex) 
 		}
 
 		login.Steps = append(login.Steps, st)
+	}
+
+	// every second admitted login: the device goes on talking after the first shell prompt (bytes that are queued behind the
+	// ones the login consumes: what the login read must be put back IN FRONT of them)
+	const lateMark = "%SYS-5-LATE: link up"
+
+	trailer := s.Class == "ok" && s.Fault == "" && s.idx%2 == 0
+	if trailer {
+		login.Trailer = "\r\n" + lateMark + "\r\nr1>"
 	}
 
 	pipe := simdev.NewPipe(login, int64(s.idx))
@@ -207,6 +218,22 @@ func c10Run(s *c10Scn, segName string, logEnc *json.Encoder, logMu *sync.Mutex) 
 		fail(&v, "C10:"+s.Style+":failed-login-leaves-transport-open:"+s.Class, "script [%s]: Open failed (%v) but the transport was not closed", scriptS, oerr)
 	}
 
+	if v.OK && s.Class == "ok" && trailer {
+		pipe.WaitDrained(time.Second)
+		time.Sleep(2 * time.Millisecond)
+
+		all, rerr := d.Channel.ReadAll()
+		i1 := bytes.Index(all, []byte("r1>"))
+		i2 := bytes.Index(all, []byte(lateMark))
+
+		switch {
+		case rerr != nil:
+			fail(&v, "C10:"+s.Style+":bytes-after-login", "script [%s]: ReadAll after login: %v", scriptS, rerr)
+		case i1 < 0 || i2 < 0 || i1 > i2 || bytes.Count(all, []byte(lateMark)) != 1 || !bytes.HasSuffix(bytes.TrimSpace(all), []byte("r1>")):
+			fail(&v, "C10:"+s.Style+":bytes-after-login-lost-or-reordered", "script [%s]: after login the channel holds %q; the device sent its first prompt, then %q", scriptS, all, login.Trailer)
+		}
+	}
+
 	if v.OK && s.Class == "ok" {
 		// the bytes read during login remain available to the first operation
 		d.Channel.TimeoutOps = 2 * time.Second
@@ -294,6 +321,10 @@ func c10(args []string) error {
 		}
 
 		s.idx = len(scns)
+		if s.Idx != nil {
+			s.idx = *s.Idx
+		}
+
 		scns = append(scns, s)
 
 		return nil
